@@ -165,6 +165,22 @@ Definition C13_cli_ok (auth_enabled : bool) (req : rx) (reqmac : bytes) (resps :
   | None => true
   end.
 
+(* The response an offset is computed from comes from the queried host and is
+   addressed to the client: ISD-AS, an IP address type (a service or other
+   non-IP address with the same bytes is not the host), and the same IP address
+   (an IPv4 address and its IPv4-mapped IPv6 form are the same host). *)
+Definition from_queried (lia : Z) (lh : bytes) (ria : Z) (rh : bytes) (q : rx) : bool :=
+  let h := rx_hdr q in
+  (h_src_ia h =? ria) && ((h_src_type h =? 0) || (h_src_type h =? 3)) && same_ip (h_src_raw h) rh &&
+  (h_dst_ia h =? lia) && ((h_dst_type h =? 0) || (h_dst_type h =? 3)) && same_ip (h_dst_raw h) lh.
+
+Definition C13_cli_from_queried_ok (lia : Z) (lh : bytes) (ria : Z) (rh : bytes) (resps : list (rx * bytes))
+    (accepted : option nat) : bool :=
+  match accepted with
+  | Some i => match nth_error resps i with Some (q, _) => from_queried lia lh ria rh q | None => false end
+  | None => true
+  end.
+
 (* ---- fail-closed authentication (NOT a clause of C13 as stated; the pinned
         code does not have this property, see Props/C13.v) ----
    A client configured to authenticate computes an offset only from a response
